@@ -118,9 +118,9 @@ class BoxCoxTargetTransform(ScalarTargetTransform):
        T(y, \lambda=0) = \log y
 
     One difficulty is that expressions involve division by :math:`\lambda`. Our
-    implementation separates between (1) :math:`\lambda \ge \varepsilon`, (2)
-    :math:`\lambda\le -\varepsilon`, and (3)
-    :math:`-\varepsilon < \lambda < \varepsilon`, where :math:`\varepsilon` is
+    implementation separates between (1) :math:`\lambda > \varepsilon`, (2)
+    :math:`\lambda < -\varepsilon`, and (3)
+    :math:`-\varepsilon \le \lambda \le \varepsilon`, where :math:`\varepsilon` is
     :const:`BOXCOX_LAMBDA_EPS`. In case (3), we use the approximation
     :math:`z \approx u + \lambda u^2/2`, where :math:`u = \log y`.
 
@@ -225,10 +225,10 @@ class BoxCoxTargetTransform(ScalarTargetTransform):
         # Case distinction, in order to avoid division by (almost) zero
         numerator = anp.expm1(uvals * boxcox_lambda)
         return anp.where(
-            boxcox_lambda >= BOXCOX_LAMBDA_EPS,
+            boxcox_lambda > BOXCOX_LAMBDA_EPS,
             self._forward_lam_gt_eps(numerator, boxcox_lambda),
             anp.where(
-                boxcox_lambda <= -BOXCOX_LAMBDA_EPS,
+                boxcox_lambda < -BOXCOX_LAMBDA_EPS,
                 self._forward_lam_lt_minuseps(numerator, boxcox_lambda),
                 self._forward_abslam_lt_eps(uvals, boxcox_lambda),
             ),
@@ -264,10 +264,10 @@ class BoxCoxTargetTransform(ScalarTargetTransform):
         z_lambda = anp.maximum(latents * boxcox_lambda, BOXCOX_ZLAMBDA_THRES)
         log_1_plus_z_lambda = anp.log1p(z_lambda)
         return anp.where(
-            boxcox_lambda >= BOXCOX_LAMBDA_EPS,
+            boxcox_lambda > BOXCOX_LAMBDA_EPS,
             self._inverse_lam_gt_eps(log_1_plus_z_lambda, boxcox_lambda),
             anp.where(
-                boxcox_lambda <= -BOXCOX_LAMBDA_EPS,
+                boxcox_lambda < -BOXCOX_LAMBDA_EPS,
                 self._inverse_lam_lt_minuseps(log_1_plus_z_lambda, boxcox_lambda),
                 self._inverse_abslam_lt_eps(z_lambda, latents),
             ),
